@@ -790,6 +790,19 @@ fn is_prefix<T: PartialEq>(a: &[T], b: &[T]) -> bool {
     a.len() <= b.len() && a[..] == b[..a.len()]
 }
 
+/// Fault positions (1-based call indices) to enumerate: every call when
+/// there are at most 400 of them; for longer runs (the > 64 KiB stream class
+/// read or written in tiny pieces) the first 24, the last 24 and about 24
+/// evenly spaced calls in between, so that one case stays linear in the
+/// stream length.
+fn fault_points(calls: usize) -> Vec<usize> {
+    if calls <= 400 {
+        return (1..=calls).collect();
+    }
+    let stride = std::cmp::max(1, (calls - 48) / 24);
+    (1..=24).chain((25..=calls - 24).step_by(stride)).chain(calls - 23..=calls).collect()
+}
+
 fn c18_check(case: &Case, ctx: &mut Ctx) -> Result<(), String> {
     if case.sub.starts_with("long-pattern:") {
         return replay_long_scenario(case, true);
@@ -825,7 +838,7 @@ fn c18_check(case: &Case, ctx: &mut Ctx) -> Result<(), String> {
     let read_ks: Vec<usize> = match &explicit {
         Some(Fault::Read { k }) => vec![*k],
         Some(_) => vec![],
-        None => (1..=r_calls).collect(),
+        None => fault_points(r_calls),
     };
     for &k in &read_ks {
         // the kind of the injected error varies with the fault position
@@ -882,7 +895,7 @@ fn c18_check(case: &Case, ctx: &mut Ctx) -> Result<(), String> {
     let write_ks: Vec<usize> = match &explicit {
         Some(Fault::Write { k }) => vec![*k],
         Some(_) => vec![],
-        None => (1..=w_calls).collect(),
+        None => fault_points(w_calls),
     };
     for &k in &write_ks {
         let run = run_replace(&s, case, false, &Some(Fault::Write { k }), None)?;
@@ -910,7 +923,9 @@ fn c18_check(case: &Case, ctx: &mut Ctx) -> Result<(), String> {
                 (0..total).collect()
             } else {
                 // every position near the start/end and a stride in between
-                (0..32).chain((32..total - 32).step_by(7)).chain(total - 32..total).collect()
+                // (at most ~40 points in between for very long outputs)
+                let stride = std::cmp::max(7, (total - 64) / 40);
+                (0..32).chain((32..total - 32).step_by(stride)).chain(total - 32..total).collect()
             }
         }
     };
@@ -993,7 +1008,7 @@ fn c18_strategy(_tier: Tier) -> BoxedStrategy<Case> {
 pub const C18: PropDef = PropDef {
     id: "C18",
     rule: "C07/C08 generators with shorter streams; for each generated (stream, read schedule, buffer spare, replacement table, writer chunking) the fault-free run is executed first to learn the number of read calls R and write calls W and the output length, \
-then EVERY fault position is injected: read failure at call k for k in 1..=R (match iterator, table replacement, closure replacement; the error kind cycles through ConnectionReset / Interrupted / UnexpectedEof / WouldBlock / Other with k; for Interrupted either reporting it or retrying with the complete fault-free result is accepted), write failure at call k in 1..=W, a writer that accepts exactly n bytes then fails for every n (all n if output <= 96 bytes, else first/last 32 and every 7th), and the closure failing at match j. \
+then EVERY fault position is injected (all of them when a run makes at most 400 calls, which is every case except the rare > 64 KiB stream class read in tiny pieces; there the first 24, the last 24 and about 24 evenly spaced calls): read failure at call k for k in 1..=R (match iterator, table replacement, closure replacement; the error kind cycles through ConnectionReset / Interrupted / UnexpectedEof / WouldBlock / Other with k; for Interrupted either reporting it or retrying with the complete fault-free result is accepted), write failure at call k in 1..=W, a writer that accepts exactly n bytes then fails for every n (all n if output <= 96 bytes, else first/last 32 and every 7th, at most ~40 in between), and the closure failing at match j. \
 Oracle: nothing panics; the injected error kind surfaces (one trailing Some(Err) item, resp. the returned Err); matches before it are a prefix of the fault-free sequence; bytes written are a prefix of the fault-free output (exactly the first n for the byte-limited writer); the iterator never ends before the reader returned Ok(0). \
 The long-pattern scenarios of C07 (L up to 1 MiB + 4097 at the default capacity) are re-run with a read failure at the last, second-to-last and middle read call. evaluations counts generated cases; the counter faults_injected counts fault runs. \
 Non-trivial = at least one fault was injected after a buffer roll, or between the two reads that a match spans. Distinct = distinct case fingerprint.",
